@@ -47,11 +47,19 @@ def h_membership(op, ka, kb, inc_a, inc_b, inc_c, m):
     pyop, lop = OPS[op]
     a, ain, aout = _operand(ka, m, 'a_', inc_a)
     b, bin_, bout = _operand(kb, m, 'b_', inc_b)
-    comp = {'and': a & b, 'or': a | b, 'xor': a ^ b}[op]
-    m.require('operator builds a compound of the two operands with the matching Python operator',
-              isinstance(comp, CompoundPixelRegion) and comp.region1 is a and comp.region2 is b and comp.operator is pyop)
-    if inc_c is not None:
-        comp.meta = _meta(inc_c)
+    if inc_c == 'explicit-empty':
+        # built through the public constructor with an explicitly given EMPTY meta / visual: an included compound of its own,
+        # whatever the first operand's flags are
+        from regions import RegionMeta, RegionVisual
+        comp = CompoundPixelRegion(a, b, pyop, meta=RegionMeta(), visual=RegionVisual())
+        m.require('an explicitly given empty meta is kept (not replaced by the first operand\'s)', dict(comp.meta) == {} and comp.meta is not a.meta)
+        inc_c = True
+    else:
+        comp = {'and': a & b, 'or': a | b, 'xor': a ^ b}[op]
+        m.require('operator builds a compound of the two operands with the matching Python operator',
+                  isinstance(comp, CompoundPixelRegion) and comp.region1 is a and comp.region2 is b and comp.operator is pyop)
+        if inc_c is not None:
+            comp.meta = _meta(inc_c)
     px, py = m.real('px'), m.real('py')
     res = comp.contains(PixCoord(px, py))
     off = And(Or(ain(px, py), aout(px, py)), Or(bin_(px, py), bout(px, py)))
@@ -151,6 +159,30 @@ def h_annulus_history(kind, m):
     m.require('after re-assignment: the box is that of the new outer outline', And(bb.ixmin == ob.ixmin, bb.ixmax == ob.ixmax, bb.iymin == ob.iymin, bb.iymax == ob.iymax))
 
 
+def h_mask_operand_flags_executed(m):
+    """EXECUTED (no symbolic input; the symbolic compound-mask cases are in the thorough tier): the mask of a compound is the
+    operator applied to the operand masks placed at the same absolute pixels -- include flags of operands or of the compound
+    do not enter a mask"""
+    import operator
+    from regions import CirclePixelRegion, RectanglePixelRegion, CompoundPixelRegion, PixCoord, RegionMeta
+    for inc_a, inc_b, inc_c in ((None, None, None), (False, None, None), (None, 0, None), (False, False, None), (None, None, False), (False, None, True)):
+        a = CirclePixelRegion(PixCoord(3.2, 4.1), 2.3, meta=_meta(inc_a))
+        b = RectanglePixelRegion(PixCoord(4.6, 3.4), 3.0, 2.0, angle=20 * u.deg, meta=_meta(inc_b))
+        plain_a = CirclePixelRegion(PixCoord(3.2, 4.1), 2.3)
+        plain_b = RectanglePixelRegion(PixCoord(4.6, 3.4), 3.0, 2.0, angle=20 * u.deg)
+        for name, fn in (('and', operator.and_), ('or', operator.or_), ('xor', operator.xor)):
+            comp = CompoundPixelRegion(a, b, fn, meta=_meta(inc_c)) if inc_c is not None else CompoundPixelRegion(a, b, fn)
+            mk = comp.to_mask()
+            bb = mk.bbox
+            ma, mb = plain_a.to_mask(), plain_b.to_mask()
+            img_a, img_b = np.zeros((20, 20)), np.zeros((20, 20))
+            img_a[ma.bbox.iymin:ma.bbox.iymax, ma.bbox.ixmin:ma.bbox.ixmax] = ma.data
+            img_b[mb.bbox.iymin:mb.bbox.iymax, mb.bbox.ixmin:mb.bbox.ixmax] = mb.data
+            want = fn(img_a.astype(bool), img_b.astype(bool))[bb.iymin:bb.iymax, bb.ixmin:bb.ixmax]
+            m.require(f'{name}, include flags ({inc_a}, {inc_b}, {inc_c}): mask = operator(mask_a, mask_b) at the same absolute pixels',
+                      mk.data.shape == want.shape and bool(np.all(mk.data.astype(bool) == want)))
+
+
 def h_compound_misc(m):
     from regions import CirclePixelRegion, PixCoord, CompoundPixelRegion, RegionMeta
     a = CirclePixelRegion(PixCoord(1.0, 2.0), 3.0, meta=RegionMeta({'label': 'A'}))
@@ -235,11 +267,12 @@ def harnesses(tier):
                                                                               ('ellipse', 'rectangle')]
         for ka, kb in pairs:
             combos = [(None, None, None), (False, None, None), (None, 0, None), (None, None, False), (False, None, True),
-                      (0, False, 0)] if (q and (ka, kb) == ('circle', 'rectangle')) else \
+                      (0, False, 0), (False, None, 'explicit-empty')] if (q and (ka, kb) == ('circle', 'rectangle')) else \
                 ([(None, None, None), (None, None, False)] if q else
                  [(ia, ib, ic) for _, ia in INCS[:3] for _, ib in INCS[:3:2] for _, ic in (INCS[0], INCS[2], INCS[3])])
             for ia, ib, ic in combos:
                 hs.append((f'membership/{op}/{ka}-{kb}/inc={ia},{ib},{ic}', P(h_membership, op, ka, kb, ia, ib, ic)))
+    hs.append(('compound-mask/operand-include-flags (executed)', h_mask_operand_flags_executed))
     for op1, op2 in ([('and', 'or'), ('xor', 'and'), ('or', 'xor')] if q else
                      [(a, b) for a in OPS for b in OPS]):
         hs.append((f'nested/{op1}-{op2}', P(h_nested, op1, op2)))
